@@ -2041,3 +2041,149 @@ Proof.
       apply incl_filter.
 Qed.
 
+
+(* every submission the responder logs while connecting a block is the dispute / penalty of a
+   tracker whose confirming block was disconnected, or the penalty of a stale unconfirmed tracker *)
+Theorem responder_sends_justified le sc t b h t' ev :
+  Inv t -> r_block_connected le sc t b h = Ok tt t' -> In ev (rpc_log t') ->
+  In ev (rpc_log t) \/
+  (r_kind ev = K_send /\
+   ((exists k, In k (db_trks t) /\ In (trk_uuid k) (reorged t) /\ memN (t_penalty k) (keys_of (ib_data b)) = false /\
+               (r_tx ev = t_dispute k \/ r_tx ev = t_penalty k)) \/
+    (exists k, In k (db_trks t) /\ t_conf k = false /\ t_height k + RETRY <= h /\
+               memN (t_penalty k) (keys_of (ib_data b)) = false /\ r_tx ev = t_penalty k))).
+Proof.
+  intros HI E Hev. destruct (r_block_connected_facts le sc t b h t' HI E) as [lim [t5 F]].
+  rewrite (rf_log _ _ _ _ _ _ _ F) in Hev.
+  destruct (ca_log_new _ _ _ (rf_carried _ _ _ _ _ _ _ F) ev Hev) as [H|[Hk [Hn [_ Hm]]]]; [left; exact H|].
+  right. split; [exact Hk|]. cbn [car_memo set_car_height] in Hn.
+  destruct (retry_lim h lim (rf_lim _ _ _ _ _ _ _ F)) as [_ [Hl Hle]].
+  destruct (rf_sent_justified _ _ _ _ _ _ _ F (r_tx ev)) as [H|[H|[k [H1 [H2 [H3 [H4 H5]]]]]]].
+  - rewrite Hm. discriminate.
+  - congruence.
+  - left. exact H.
+  - right. exists k. repeat split; auto. lia.
+Qed.
+
+Lemma send_status_cases t a :
+  send_status t a = InMempoolSince (car_height t) \/ send_status t a = IrrevocablyResolved \/
+  exists c, send_status t a = Rejected c.
+Proof.
+  unfold send_status. destruct a as [|c]; [auto|].
+  repeat match goal with |- context [if ?b then _ else _] => destruct b end; eauto.
+Qed.
+
+Lemma fate_fields txids h lim rg e k k' :
+  fate txids h lim rg e k = Some k' ->
+  trk_uuid k' = trk_uuid k /\ t_dispute k' = t_dispute k /\ t_penalty k' = t_penalty k.
+Proof.
+  unfold fate.
+  repeat match goal with |- context [if ?b then _ else _] => destruct b end;
+    intros E; inversion E; try (repeat split; fail); try discriminate.
+  apply stale_upd_fields.
+Qed.
+
+Lemma incl_apps_stableWR (A : list app) : StableWR (fun t => incl (db_apps t) A).
+Proof.
+  constructor.
+  - intros t t' [_ [_ [_ [Ha _]]]] H. rewrite <- Ha. exact H.
+  - intros t us H. unfold db_delete_apps. cbn [db_apps set_db_trks set_db_apps].
+    intros a Ha. apply filter_In in Ha. apply H. tauto.
+  - intros t u ui s H _. exact H.
+  - intros t k H _ _. exact H.
+  - intros t uuid h c H. exact H.
+Qed.
+
+(* the situation the cadence corollary follows along a run: tracker U is unconfirmed with penalty p,
+   which no other tracker shares; no reorg is pending; the carrier's memo is empty (a block has been
+   processed since the last API submission); the appointments are among A0 *)
+Definition cad_inv (U : N * N) (p : N) (A0 : list app) (t : tower) (k : trk) : Prop :=
+  Inv t /\ reorged t = [] /\ car_memo t = [] /\ find_trk (db_trks t) U = Some k /\ t_conf k = false /\
+  t_penalty k = p /\ (forall k', In k' (db_trks t) -> t_penalty k' = p -> trk_uuid k' = U) /\ incl (db_apps t) A0.
+
+Lemma cadence_step le U p A0 t k hash txs sc t' :
+  cad_inv U p A0 t k -> gk_height t < t_height k + RETRY ->
+  ~ In p txs -> (forall a, In a A0 -> ~ In (a_loc a) txs) ->
+  step le t (OConnect hash txs) sc = (t', OBlockRes) -> find_trk (db_trks t') U <> None ->
+  gk_height t' = gk_height t + 1 /\
+  if N.eqb (gk_height t + 1) (t_height k + RETRY)
+  then cad_inv U p A0 t' (restamp k (gk_height t + 1) false) /\ (exists r, In (mk_rpc K_send p r) (rpc_log t'))
+  else cad_inv U p A0 t' k /\ ~ (exists r, In (mk_rpc K_send p r) (rpc_log t')).
+Proof.
+  intros [HI [Hrg [Hmemo [Hf [Hc [Hp [Huniq Hincl]]]]]]] Hnot_due Hptx Hnob E Hsurv.
+  set (h := gk_height t + 1) in *.
+  destruct (step_connect_inv le t hash txs sc t' E) as [tg [tw [Eg [Ew Er]]]]. fold h in Eg, Ew, Er.
+  assert (HIf : Inv (set_rpc_log t [])) by (eapply inv_frame; [|exact HI]; repeat split).
+  assert (HIg : Inv tg).
+  { pose proof (gk_block_connected_pres Inv (sa_block _ inv_stable) _ h HIf) as Hpp. rewrite Eg in Hpp. exact Hpp. }
+  destruct (gk_block_connected_shape _ _ _ Eg) as [out [Hrows_g [Happs_g [Htrks_g [Hrg_g [Hmemo_g [Hlog_g Hh_g]]]]]]].
+  cbn [db_trks db_apps reorged car_memo rpc_log set_rpc_log] in Hrows_g, Happs_g, Htrks_g, Hrg_g, Hmemo_g, Hlog_g.
+  destruct (w_block_connected_idle sc tg hash txs h tw) as [c Etw]; [|exact Ew|].
+  { intros a Ha. apply Hnob. apply Hincl. apply Happs_g. exact Ha. }
+  assert (HIw : Inv tw) by (rewrite Etw; eapply inv_frame; [|exact HIg]; repeat split).
+  assert (Htrks_w : db_trks tw = db_trks tg) by (rewrite Etw; reflexivity).
+  assert (Happs_w : db_apps tw = db_apps tg) by (rewrite Etw; reflexivity).
+  assert (Hrg_w : reorged tw = []) by (rewrite Etw; cbn [reorged set_w_height set_w_cache]; congruence).
+  assert (Hmemo_w : car_memo tw = []) by (rewrite Etw; cbn [car_memo set_w_height set_w_cache]; congruence).
+  assert (Hlog_w : rpc_log tw = []) by (rewrite Etw; cbn [rpc_log set_w_height set_w_cache]; congruence).
+  assert (Hh_w : gk_height tw = h) by (rewrite Etw; cbn [gk_height set_w_height set_w_cache]; exact Hh_g).
+  destruct (r_block_connected_facts le sc tw (index_block hash txs) h t' HIw Er) as [lim [t5 F]].
+  pose proof (rf_rows _ _ _ _ _ _ _ F) as Hrows. rewrite keys_index_block in Hrows.
+  destruct (retry_lim h lim (rf_lim _ _ _ _ _ _ _ F)) as [Hlt [Hlim Hle]].
+  destruct (rf_heights _ _ _ _ _ _ _ F) as [Hh' _].
+  assert (HI' : Inv t').
+  { pose proof (r_block_connected_pres Inv (sb_wr _ (sa_block _ inv_stable)) le sc tw (index_block hash txs) h HIw) as Hpp. rewrite Er in Hpp. exact Hpp. }
+  assert (Happs' : incl (db_apps t') A0).
+  { pose proof (r_block_connected_pres _ (incl_apps_stableWR A0) le sc tw (index_block hash txs) h) as Hpp.
+    rewrite Er in Hpp. apply Hpp. rewrite Happs_w. intros a Ha. apply Hincl. apply Happs_g. exact Ha. }
+  (* the row handed to the responder is the row before the step *)
+  assert (Hfw : find_trk (db_trks tw) U = Some k).
+  { pose proof (Hrows U) as HU. rewrite Htrks_w, Hrows_g in *. destruct (memN (snd U) out); [|exact Hf].
+    exfalso. apply Hsurv. exact HU. }
+  assert (Hmem_p : memN p txs = false) by (apply memN_false; exact Hptx).
+  pose proof (Hrows U) as HU. rewrite Hfw in HU. unfold fate in HU. rewrite Hp, Hmem_p, Hrg_w, Hc in HU.
+  cbn [mem_uuid existsb] in HU.
+  (* uniqueness of the penalty carries over *)
+  assert (Huniq' : forall k', In k' (db_trks t') -> t_penalty k' = p -> trk_uuid k' = U).
+  { intros k' Hk' Hp'. pose proof (find_trk_In_NoDup _ k' (inv_trks_nodup _ HI') Hk') as Hfk.
+    rewrite Hrows in Hfk. destruct (find_trk (db_trks tw) (trk_uuid k')) as [k2|] eqn:E2; [|discriminate].
+    destruct (fate_fields _ _ _ _ _ _ _ Hfk) as [Hu2 [_ Hp2]]. rewrite Hu2.
+    destruct (find_trk_Some _ _ _ E2) as [Hin2 _]. apply Huniq; [|congruence].
+    apply Htrks_g. rewrite <- Htrks_w. exact Hin2. }
+  split; [congruence|].
+  assert (Hbase : forall k1, find_trk (db_trks t') U = Some k1 -> t_conf k1 = false -> t_penalty k1 = p -> cad_inv U p A0 t' k1).
+  { intros k1 H1 H2 H3. unfold cad_inv. split; [exact HI'|]. split; [exact (rf_reorged _ _ _ _ _ _ _ F)|].
+    split; [exact (rf_memo _ _ _ _ _ _ _ F)|]. split; [exact H1|]. split; [exact H2|]. split; [exact H3|].
+    split; [exact Huniq'|exact Happs']. }
+  destruct (N.eqb_spec h (t_height k + RETRY)) as [Hdue|Hnd].
+  - assert (Hl : N.leb (t_height k) lim = true) by (apply N.leb_le; lia). rewrite Hl in HU.
+    assert (Hmemo_p : aget (car_memo tw) p = None) by (rewrite Hmemo_w; reflexivity).
+    pose proof (blk_eff_fresh sc tw h p Hmemo_p) as He.
+    assert (Hst : status_rejected (blk_eff sc tw h p) = false /\ stale_upd (blk_eff sc tw h) h k = restamp k h false).
+    { unfold stale_upd. rewrite Hp.
+      destruct (send_status_cases (set_car_height tw h) (snd (script_get sc p))) as [Hs|[Hs|[cc Hs]]];
+        rewrite He, Hs in *; cbn [status_rejected] in *.
+      - split; reflexivity.
+      - split; reflexivity.
+      - exfalso. apply Hsurv. exact HU. }
+    destruct Hst as [Hnr Hupd]. rewrite Hnr, Hupd in HU. split.
+    + apply Hbase; [exact HU|reflexivity|exact Hp].
+    + exists (blk_eff sc tw h p). rewrite (rf_log _ _ _ _ _ _ _ F).
+      assert (Hcov : aget (car_memo t5) (t_penalty k) = Some (blk_eff sc tw h (t_penalty k))).
+      { apply (rf_cov_stale _ _ _ _ _ _ _ F U k Hfw); [rewrite keys_index_block, Hp; exact Hmem_p|rewrite Hrg_w; intros []|exact Hc|lia]. }
+      rewrite Hp in Hcov. destruct (given_of_cov sc tw h t5 p (rf_carried _ _ _ _ _ _ _ F) Hcov) as [Hg|Hg]; [congruence|exact Hg].
+  - assert (Hl : N.leb (t_height k) lim = false) by (apply N.leb_gt; lia). rewrite Hl in HU. split.
+    + apply Hbase; [exact HU|exact Hc|exact Hp].
+    + intros [r Hr]. rewrite (rf_log _ _ _ _ _ _ _ F) in Hr.
+      destruct (ca_log_new _ _ _ (rf_carried _ _ _ _ _ _ _ F) _ Hr) as [H|[_ [_ [_ Hm]]]].
+      { cbn [rpc_log set_car_height] in H. rewrite Hlog_w in H. destruct H. }
+      cbn [r_tx r_res] in Hm.
+      destruct (rf_sent_justified _ _ _ _ _ _ _ F p) as [H|[[k2 [_ [H _]]]|[k2 [H1 [H2 [H3 [H4 H5]]]]]]].
+      * rewrite Hm. discriminate.
+      * rewrite Hmemo_w in H. apply H. reflexivity.
+      * rewrite Hrg_w in H. destruct H.
+      * assert (Hu2 : trk_uuid k2 = U) by (apply Huniq; [apply Htrks_g; rewrite <- Htrks_w; exact H1|congruence]).
+        destruct (find_trk_Some _ _ _ Hfw) as [Hkin Hku].
+        assert (k2 = k) by (apply (same_uuid_same_row (db_trks tw)); auto; [exact (inv_trks_nodup _ HIw)|congruence]).
+        subst k2. apply N.leb_gt in Hl. lia.
+Qed.
